@@ -569,7 +569,8 @@ pub fn check_body_matches(c: &HeadCase, eff: &Effective, u: Under, head: &ReqHea
     match u {
         Under::Flow(f) => match after_head(f)? {
             AfterHead::RecvResponse(_) => {
-                if eff.body_follows {
+                // a body of zero bytes (Content-Length: 0 alone): a flow without a body state for it is as good as an empty body state
+                if eff.body_follows && !(announced_cl == Some(0) && !announced_te) {
                     return Err("a body is due but the flow went to RecvResponse after the head".into());
                 }
             }
